@@ -49,6 +49,9 @@ FAULTS = {
     "needs-position": ("argo", "speed_test", {"suspect_threshold": 1, "fail_threshold": 2}, "no-pos"),
     "aggregate-as-test": ("qartod", "aggregate", {}, None),
     **{f"raise-{k}": ("qartod", "vf_raise_test", {"kind": k}, None) for k in RAISE_KINDS},
+    # the SAME test as a healthy one, unusable in another context (handled specially: always placed in its own context)
+    "same-test-bad-params-elsewhere": ("qartod", "gross_range_test", {"fail_span": [0, 1, 2]}, None),
+    "same-test-missing-params-elsewhere": ("qartod", "spike_test", {"method": "nope"}, None),
 }
 
 
@@ -155,6 +158,17 @@ def run(ctx) -> None:
                                 injected.append((fn, p))
                                 continue
                             entry = FAULTS[fn][:3]
+                            if fn.startswith("same-test-"):
+                                # its own context with its own window, listed before or after the healthy contexts
+                                wx = (tb.secs[0] - 50 - k, tb.secs[0] - 40) if not tb.with_time else rng.choice(
+                                    [w for w in lay if w not in (w1, w2)] or [(tb.secs[0] - 50 - k, tb.secs[0] - 40)])
+                                newc = {"window": wx, "streams": {"v1": [entry]}}
+                                if p in ("before", "other-context"):
+                                    faulty.insert(0, newc)
+                                else:
+                                    faulty.append(newc)
+                                injected.append((fn, "own-context-" + ("first" if p in ("before", "other-context") else "last")))
+                                continue
                             if any(entry[1] == t[1] and entry[0] == t[0] for c in faulty for ts_ in c["streams"].values() for t in ts_):
                                 continue
                             if p == "other-context":
